@@ -190,6 +190,10 @@ def run_rust(scenarios_scripts, key_codes, obs_lcd=False, timeout=900, obs_full=
              "imem": {str(k): v for k, v in scen.get("imem", {}).items()}, "timer": scen.get("timer", {}),
              "obs_lcd": obs_lcd, "obs_full": obs_full, "bare": bool(scen.get("bare")),
              "script": rust_script(script, key_codes)}
+        if scen.get("overlays"):
+            p["overlays"] = scen["overlays"]
+        if scen.get("card"):
+            p["card"] = scen["card"]
         payload.append(p)
     if valgrind:
         rr, rep = rust.run_valgrind("rt", payload, timeout=timeout)
